@@ -314,7 +314,7 @@ inline sim::Plan genPlan(uint64_t seed, const std::string &profile, bool thoroug
         unsigned t = (unsigned)r.below(1000);
         sim::Op o;
         if (t < (unsigned)pReject) {
-            o.k = "reject"; o.x = (int64_t)r.below(256); o.a = (int64_t)r.below(1024); o.b = (int64_t)r.below(1024); o.y = (int64_t)r.below(8);
+            o.k = "reject"; o.x = (int64_t)r.below(256); o.a = (int64_t)r.below(1024); o.b = (int64_t)r.below(1024); o.y = (int64_t)r.below(16);
         } else if ((t -= (unsigned)pReject) < (unsigned)pSnap) {
             o.k = r.pm(500) ? "copy" : "assign"; o.x = (int64_t)r.below(1 << 20); o.a = (int64_t)r.below(64); o.b = (int64_t)r.below(64);
         } else if ((t -= (unsigned)pSnap) < (unsigned)pPersist) {
